@@ -102,6 +102,21 @@ func (d *drv) NonTrivial(env *core.Env, b *core.Behaviour) bool {
 		s := b.Steps[0]
 		return s.Str("fmt") == "legacy" || s.Str("pcls") == "b32" || s.Str("pcls") == "b33" || s.Str("pcls") == "long"
 	}
+	// the timeout as an obligation: timed unlock ; failed or ticket-only unlock ; deadline
+	st := 0
+	for _, s := range b.Steps {
+		switch {
+		case s.Op() == "Step" && s.Str("kind") == "Unlock" && s.Str("at") == "u2":
+			st = 1
+		case st == 1 && s.Op() == "End" && ((s.Str("kind") == "Unlock" && s.Str("ret") == "fail") || s.Str("kind") == "UnlockT"):
+			st = 2
+		case s.Op() == "Timer":
+			if st == 2 {
+				return true
+			}
+			st = 0
+		}
+	}
 	in := false
 	for _, s := range b.Steps {
 		if s.Op() == "Step" && s.Str("kind") == "SetPasswd" {
